@@ -33,6 +33,9 @@ import (
 // nil} on all the node's key shapes, states {all fields zero, full, full, genesis-like}, height 0 and 1, blocks at
 // height 0 and 1 that are full or made of empty parts only; "values-badger" replays the crash-free part of that
 // alphabet on the real on-disk badger datastore (fidelity of the double for empty values, close + reopen).
+// The "heights" part (heights_test.go) is about the NUMERIC VALUE of the height: one store, a distinct block, the
+// recorded height and the node's per-height metadata records at every height of a large set (dense range, powers of
+// two and ten ±1, every 8-byte rendering made of path-syntax bytes, adjacent special bytes), read back against the map model.
 
 var signer = world.NewFixedSigner("c14")
 
@@ -799,6 +802,8 @@ func relSearch(name string, depth int, full, axis, crash []uint64, crashAxisOnly
 type histRef struct {
 	Search string `json:"search"`
 	Hist   []int  `json:"hist"`
+	// heights part (Search = "heights"): the heights written, in order; empty = the whole height set of the tier
+	Heights []uint64 `json:"heights,omitempty"`
 }
 
 func TestCheck(t *testing.T) {
@@ -842,8 +847,14 @@ func TestCheck(t *testing.T) {
 		"a metadata read after a write of an empty value (empty slice or nil) must SUCCEED and return a zero-length value (nil and empty slice are not told apart); not-found is a different answer. That is what GetMetadata does on the unchanged tree over the double and over real badger (values-badger), and the callers tell the two apart (block/manager.go logs a failed read of LastBatchDataKey as an error after genesis and persists an empty batch-cursor list under it; the RPC store server turns not-found into an error)",
 		"state reads are compared on every field of types.State (version, chain id, initial height, last block height and time, DA height, last results hash, app hash); nil and empty byte strings are not told apart",
 		"values-badger runs on the real badger4 datastore (store.NewDefaultKVStore in a scratch directory) without crash injection and without merging histories; it checks the same oracle and thereby that the logging double agrees with badger on empty values and on close + reopen",
+		"heights: the explicit-state searches use heights 0..3; the numeric value of the height is covered by the heights part on the height set listed under bounds.searches.heights.height_set (one tiny block per height: no signer, no metadata, one 8-byte transaction; header, data and signature pairwise distinct). A store that misplaces a record only for a height outside that set, or only for a particular combination of height and block contents, is outside the bound",
+		"the per-height metadata keys are built as block/manager.go builds them (fmt.Sprintf(\"%s/%d/h\" and \"%s/%d/d\", store.RollkitHeightToDAHeightKey, height)); the format string is copied into the harness, the prefix constant is the repository's",
+		"a height that was never written must not be found (GetBlockData, GetHeader, GetSignature, GetMetadata of its rhb key fail), as in the searches; the heights part probes the never-written neighbours h±1 of every written height",
 		"SaveBlockData arguments are enumerated as shapes, not as arbitrary bytes: 3 headers (two data hashes and the no-transactions hash), 3 signature values including the empty one used independently for header.Signature and for the signature argument, 5 data values (two transaction lists with/without metadata, no transactions with/without metadata); a store whose behaviour depends on a relation between arguments that these shapes do not realise is outside the bound",
 	}
+	// the heights part: key injectivity over the numeric value of the height (heights_test.go)
+	hset := buildHeights(vf.Pick(r, uint64(1)<<18, uint64(1)<<20), vf.Pick(r, []byte{'/', '.', 0x00, 'A'}, []byte{'/', '.', 0x00, 'A', 0x01}),
+		vf.Pick(r, []byte{0x00, 0x01, 'A', 0xff}, []byte{0x00, 0x01, 'A', 0xff, '/', '.'}))
 	if r.ReplayPath() != "" {
 		var ref histRef
 		if _, err := r.LoadReplay(&ref); err != nil {
@@ -854,6 +865,23 @@ func TestCheck(t *testing.T) {
 			}
 		}
 		found := false
+		if ref.Search == "heights" {
+			found = true
+			hs := ref.Heights
+			if len(hs) == 0 {
+				hs = hset.hs
+			}
+			if vs, _ := runHeights(hs, true); len(vs) > 0 {
+				tagged := hs
+				if len(ref.Heights) == 0 {
+					tagged = []uint64{vs[0].h}
+					if vs[0].hasOth {
+						tagged = append(tagged, vs[0].other)
+					}
+				}
+				r.Report(vf.Violation{Clause: vs[0].clause, Tags: heightTags(tagged), Msg: vs[0].msg, Cost: len(hs), History: ref})
+			}
+		}
 		for _, sp := range searches {
 			if sp.name != ref.Search {
 				continue
@@ -903,7 +931,7 @@ func TestCheck(t *testing.T) {
 			}
 			if res.clause != "" {
 				r.Report(vf.Violation{Clause: res.clause, Tags: tagsOf(sp.name, sp.acts, hist), Msg: res.msg + "\n history: " + strings.Join(res.trace, " ; "), Cost: len(hist),
-					History: histRef{sp.name, append([]int(nil), hist...)}})
+					History: histRef{Search: sp.name, Hist: append([]int(nil), hist...)}})
 				return explore.Step{Prune: true}
 			}
 			if len(hist) == 3 || len(hist) == sp.depth {
@@ -944,9 +972,52 @@ func TestCheck(t *testing.T) {
 			"wall_seconds": float64(int(time.Since(t0).Seconds()*10)) / 10}
 	}
 	sort.Strings(relSamples)
+	var hEvals int64
+	{
+		// the heights part runs after the searches (its large live heap would make every collection of the searches' garbage expensive)
+		hViols, hStats := runHeights(hset.hs, true)
+		var hSamples []string
+		// report the first violations by height and the first of every clause, each minimised to the one or two heights
+		// that reproduce it on a fresh store (otherwise the whole height set is the history)
+		seenClause := map[string]bool{}
+		reported := 0
+		for _, v := range hViols {
+			if reported >= 4 && seenClause[v.clause] {
+				continue
+			}
+			seenClause[v.clause] = true
+			reported++
+			hist, mv := minimise(v, hset.hs)
+			if hist != nil {
+				r.Report(vf.Violation{Clause: mv.clause, Tags: heightTags(hist), Cost: len(hist), History: histRef{Search: "heights", Heights: hist},
+					Msg: fmt.Sprintf("%s\n history: %s\n (found in the run over all %d heights, class of %d: %s; %d heights of that run read back wrong)", mv.msg, describeHeights(hist), len(hset.hs), v.h, hset.classOf[v.h], len(hViols))})
+				continue
+			}
+			tagged := []uint64{v.h}
+			if v.hasOth {
+				tagged = append(tagged, v.other)
+			}
+			r.Report(vf.Violation{Clause: v.clause, Tags: heightTags(tagged), Cost: len(hset.hs), History: histRef{Search: "heights"},
+				Msg: fmt.Sprintf("%s\n history: all %d heights of the height set written in ascending order on one store (class of %d: %s; %d heights read back wrong; does not reproduce with these heights alone)", v.msg, len(hset.hs), v.h, hset.classOf[v.h], len(hViols))})
+		}
+		for _, cls := range []string{"dense", "power-of-two±1", "power-of-ten±1", "path-syntax-word", "adjacent-special-bytes"} {
+			for _, h := range hset.hs {
+				if hset.classOf[h] == cls && h > 1000 {
+					hdrKey, _ := rhbKeys(h)
+					hSamples = append(hSamples, fmt.Sprintf("%s: height %d = 0x%016x, block + set height + metadata %s written and read back", cls, h, h, hdrKey))
+					break
+				}
+			}
+		}
+		hEvals = hStats.heights + hStats.probes
+		perSearch["heights"] = map[string]any{"backend": "logging KV double, ONE store for all heights", "distinct_heights": hStats.heights, "heights_per_class": hset.perCls,
+			"never_written_neighbours_probed": hStats.probes, "store_operations": hStats.ops, "heights_read_back_wrong": len(hViols), "height_set": hset.cfg,
+			"phases": "write (ascending: save block, set height, read height, set rhb/<h>/h and rhb/<h>/d); read by height and by hash + metadata, never-written neighbours h±1 not found; set every height again (never lowers the recorded height); reopen; read again",
+			"wall_seconds": hStats.seconds, "wall_seconds_per_phase": hStats.phase, "samples": hSamples}
+	}
 	r.Finish(vf.Coverage{
-		Evaluations: totTrans, DistinctNontrivial: int64(r.DistinctOutcomes()), States: totStates, Transitions: totTrans,
-		Rule: "separate explicit-state searches (base, relations, values, values-badger; thorough adds relations-crash), each over every operation history up to its depth bound over its alphabet, executed on a fresh real DefaultStore and compared getter by getter " +
+		Evaluations: totTrans + hEvals, DistinctNontrivial: int64(r.DistinctOutcomes()), States: totStates, Transitions: totTrans,
+		Rule: "separate explicit-state searches (base, relations, values, values-badger; thorough adds relations-crash) and one bounded-exhaustive enumeration (heights), the searches each over every operation history up to its depth bound over its alphabet, executed on a fresh real DefaultStore and compared getter by getter " +
 			"(block, whole signed header, signature by height; block and signature by hash; height, state, metadata) with a map model after every history. " +
 			"base: save block h×{same,same-hash-other-signature,other-hash} with signature argument = header.Signature, set height, update state, " +
 			"set metadata key × value ∈ {X, Y, empty slice, nil} (so every overwrite order non-empty/empty/nil on a key, interleaved with all other operations), reopen, " +
@@ -961,8 +1032,14 @@ func TestCheck(t *testing.T) {
 			"every field of the state compared; set height 0 and 1; blocks at height 0 and 1 that are full or consist of empty parts only (no signatures, data that marshals to the empty value), getters called on heights 0..1; reopen; " +
 			"crash before the durable write of each metadata value under key l, of the zero and genesis-like state, of both block shapes at height 0. A read after an empty write must succeed with a zero-length value, also after reopen and after a later overwrite in either direction. " +
 			"values-badger: the crash-free part of the values alphabet (fewer keys, see alphabet_config) as every history up to its depth on the real on-disk badger datastore, reopen = Close + open, no merging. " +
+			"heights: key injectivity over the numeric value of the height — on ONE fresh store over the logging double, for every height of the height set in ascending order (the dense range 0..N; 2^k-1, 2^k, 2^k+1 for k ≤ 63; 10^k-1, 10^k, 10^k+1 for k ≤ 19; MaxUint64-1, MaxUint64; " +
+			"every 8-byte word over a small alphabet of path-syntax bytes and neutral bytes read as a number; every pair and triple of adjacent special bytes {/ . \\ NUL % : LF 0xff} at every position of an 8-byte word on a constant background, big- and little-endian; N, alphabet and backgrounds under bounds.searches.heights.height_set): " +
+			"save a block that is pairwise distinct in header, data and signature, set the recorded height to it and read it (= the largest value so far), write the node's metadata records rhb/<height>/h and rhb/<height>/d; " +
+			"then for every height: block, header, signature by height, block and signature by hash, both metadata records must be the ones written for that height, and the never-written neighbours h±1 must not be found; " +
+			"then set the height to every value again (it never goes down); then reopen and read every height again (clause durability). " +
+			"A violation is minimised by re-running only the height it was seen at, or that height and the height whose record came back, on a fresh store. " +
 			"Histories are merged when the durable key/value image and the in-memory fields of the store object (reflection hook; none today) are identical; " +
-			"distinct = distinct images over all searches; states/transitions = sums over the searches",
+			"distinct = distinct images over all searches; states/transitions = sums over the searches; evaluations = transitions + heights written and read back + never-written heights probed in the heights part",
 		Exhaustive: exhaustive, Caps: caps,
 		Bounds: map[string]any{"heights": maxH, "metadata_keys": metaKeys, "metadata_value_kinds": []string{"non-empty X", "non-empty Y", "empty slice", "nil"}, "searches": perSearch,
 			"shapes_per_height": len(allShapes()), "signature_axis_shapes": len(axisShapes())},
